@@ -781,6 +781,18 @@ func c18_3(c *core.Ctx, p *core.Prog) {
 					continue
 				}
 				lo, hi, ok := ind.Coverage(src)
+				if !ok {
+					// the loop is bounded by the destination, which was made with the length of the source
+					if mk, isMk := linksMake.(*ssa.MakeSlice); isMk {
+						if lo2, hi2, ok2 := ind.Coverage(dst); ok2 && lo2 <= 0 && hi2 >= 0 {
+							if ln, isLen := core.StripConv(mk.Len).(*ssa.Call); isLen {
+								if bi, isB := ln.Call.Value.(*ssa.Builtin); isB && bi.Name() == "len" && core.SameValue(ln.Call.Args[0], src.Base) {
+									lo, hi, ok = lo2, hi2, true
+								}
+							}
+						}
+					}
+				}
 				if ok && lo <= 0 && hi >= 0 && dst.Off == src.Off {
 					linkCoverOK = true
 					spansV = src.Base
